@@ -1,6 +1,7 @@
 #!/bin/bash
 # usage: confirm_seed.sh <mutation dir with patch.diff + demo.rs> <seed id> <property>
 # Confirms in a scratch worktree: suite passes with the patch, demo fails with it, demo passes without.
+# DEMO_FEATURES=<cargo features> for demonstrations that use the feature-gated hooks.
 # On success stores /verif/seeded/<seed id>/{patch.diff,demo.rs,notes.md,meta.json}.
 set -u
 M=$1; ID=$2; PROP=$3
@@ -12,9 +13,9 @@ res_suite=FAIL; res_demo_mut=PASS; res_demo_clean=FAIL
 if git apply $M/patch.diff; then
   if cargo test --offline >/tmp/seed-suite.log 2>&1; then res_suite=PASS; fi
   cp $M/demo.rs tests/zz_demo.rs
-  if cargo test --offline --test zz_demo >/tmp/seed-demo-mut.log 2>&1; then res_demo_mut=PASS; else res_demo_mut=FAIL; fi
+  if cargo test --offline ${DEMO_FEATURES:+--features $DEMO_FEATURES} --test zz_demo >/tmp/seed-demo-mut.log 2>&1; then res_demo_mut=PASS; else res_demo_mut=FAIL; fi
   git checkout -q -- src
-  if cargo test --offline --test zz_demo >/tmp/seed-demo-clean.log 2>&1; then res_demo_clean=PASS; fi
+  if cargo test --offline ${DEMO_FEATURES:+--features $DEMO_FEATURES} --test zz_demo >/tmp/seed-demo-clean.log 2>&1; then res_demo_clean=PASS; fi
 else
   echo "patch does not apply"; res_suite=NOAPPLY
 fi
